@@ -212,8 +212,8 @@ def run(R, tier, seed, driver_ok):
                 R.violation(key_of(strategy, d).replace('calibrate_threshold', 'fit'), f'{name}: fit(calibration_params={cp}) threshold_ not optimal: {float(got)} < {float(best)}', case)
     # ---- invalid parameters are rejected before any fitting work
     strategies = ['accuracy', 'f_beta', 'max_tpr', 'max_tnr', 'weird', 'Accuracy', '']
-    rates = [('none', None), ('num', 0), ('num', 1), ('num', 0.5), ('num', -0.1), ('num', 1.1), ('other', 'a'), ('other', [0.5]), ('num', True)]
-    betas = [('none', None), ('num', 1.0), ('num', 0), ('num', 2), ('other', 'x'), ('other', [1])]
+    rates = [('none', None), ('num', 0), ('num', 1), ('num', 0.5), ('num', -0.1), ('num', 1.1), ('other', 'a'), ('other', [0.5]), ('num', True), ('num', float('nan'))]
+    betas = [('none', None), ('num', 1.0), ('num', 0), ('num', 2), ('other', 'x'), ('other', [1]), ('num', float('nan')), ('num', np.float64('nan'))]
     vl, vm = [], []
     name = zoo.PAIRS[int(rng.randint(3))]
     est0, X, y, args = zoo.fitted(name, rng)
@@ -230,7 +230,7 @@ def run(R, tier, seed, driver_ok):
                     outcome = 'ValueError'
                 except Exception as e:
                     outcome = type(e).__name__
-                valid = (s == 'accuracy' or (s == 'f_beta' and bk == 'num') or
+                valid = (s == 'accuracy' or (s == 'f_beta' and bk == 'num' and not np.isnan(float(bv))) or
                          (s in ('max_tpr', 'max_tnr') and rk == 'num' and 0 <= float(rv) <= 1))
                 case = {'strategy': s, 'min_rate': repr(rv), 'beta': repr(bv)}
                 R.case(('c16v', s, repr(rv), repr(bv)), True, branch=f'validate:{"valid" if valid else "invalid"}')
@@ -248,7 +248,7 @@ def run(R, tier, seed, driver_ok):
                             R.violation('fit-worked-before-rejecting', f'{name}.fit did fitting work before rejecting calibration_params', case)
                     except Exception as e:
                         R.violation('fit-invalid-wrong-exc', f'{name}.fit raised {type(e).__name__} for invalid calibration_params', case)
-                if driver_ok:
+                if driver_ok and not any(k_ == 'num' and np.isnan(float(v_)) for k_, v_ in ((rk, rv), (bk, bv))):     # (NaN has no exact rational: implementation oracle only)
                     def enc(k, v):
                         return f'num {f2b(float(v))}' if k == 'num' else k
                     sname = s if s else 'EMPTY'
